@@ -690,7 +690,10 @@ class World:
         # "index j rewrites the j-th listed site": aiming by the listed site itself gives the same program
         # (an expression cursor names its expression exactly; a statement cursor takes every candidate at
         # or beneath it, so the two agree when no other listed site lies beneath the j-th)
-        alone = name in EXPR_SITED or not any(q != site_paths[where] and beneath_or_at(q, site_paths[where]) for q in site_paths) if wk == 'idx' else False
+        alone = False
+        if wk == 'idx':
+            alone = name in EXPR_SITED or not any(i != where and any(beneath_or_at(q, t) for q in qs for t in site_targets[where])
+                                                  for i, qs in enumerate(site_targets))
         if wk == 'idx' and name not in RULES and hasattr(sites[where], 'resolve') and alone:
             try:
                 g3 = strategy_call(name, f, sites[where], params, None)
